@@ -158,14 +158,43 @@ func poolFacts() (overReturned, overCursor bool, note string) {
 			return ok && (key(ix.X) == pool || (res != "" && key(ix.X) == res))
 		})
 	}
+	// the body of a clearing loop must be the one statement `<slice>[<loop index>] = nil` (no break, no condition), the
+	// loop must start at 0 and step by one, and a loop over the returned variable must stand after its assignment
+	singleNil := func(body *ast.BlockStmt, idx string) bool {
+		if len(body.List) != 1 || idx == "" {
+			return false
+		}
+		as, ok := body.List[0].(*ast.AssignStmt)
+		if !ok || as.Tok != token.ASSIGN || len(as.Lhs) != 1 || len(as.Rhs) != 1 || !isNil(as.Rhs[0]) {
+			return false
+		}
+		ix, ok := as.Lhs[0].(*ast.IndexExpr)
+		return ok && ident(ix.Index) == idx
+	}
+	usesRes := func(n ast.Node) bool {
+		return res != "" && has(n, func(m ast.Node) bool { id, ok := m.(*ast.Ident); return ok && id.Name == res })
+	}
+	resSet := false
 	var scan func(list []ast.Stmt, where string)
 	scan = func(list []ast.Stmt, where string) {
 		for _, st := range list {
 			switch x := st.(type) {
+			case *ast.AssignStmt:
+				if len(x.Lhs) == 1 && len(x.Rhs) == 1 && res != "" && ident(x.Lhs[0]) == res {
+					if s, hi, ok := sliceTo(x.Rhs[0]); ok && s == pool && hi == cnt {
+						resSet = true
+					}
+				}
 			case *ast.RangeStmt:
 				if setsNil(x.Body) {
 					if where != "" {
 						die(fmt.Errorf("%s.OutsList: the slots are cleared only %s — not understood", cbs, where))
+					}
+					if !singleNil(x.Body, ident(x.Key)) {
+						die(fmt.Errorf("%s.OutsList: the body of the clearing loop is not the single statement `<slice>[%s] = nil` — not understood", cbs, ident(x.Key)))
+					}
+					if usesRes(x) && !resSet {
+						die(fmt.Errorf("%s.OutsList: the clearing loop over `%s` stands before `%s = %s[:%s]` — not understood", cbs, res, res, pool, cnt))
 					}
 					found = append(found, clr{classify(x.X, nil)})
 				}
@@ -173,6 +202,18 @@ func poolFacts() (overReturned, overCursor bool, note string) {
 				if setsNil(x.Body) {
 					if where != "" {
 						die(fmt.Errorf("%s.OutsList: the slots are cleared only %s — not understood", cbs, where))
+					}
+					idx := ""
+					if in, ok := x.Init.(*ast.AssignStmt); ok && len(in.Lhs) == 1 && len(in.Rhs) == 1 && isZeroLit(in.Rhs[0]) {
+						idx = ident(in.Lhs[0])
+					}
+					post, okp := x.Post.(*ast.IncDecStmt)
+					be, okc := x.Cond.(*ast.BinaryExpr)
+					if idx == "" || !okp || post.Tok != token.INC || ident(post.X) != idx || !okc || be.Op != token.LSS || ident(be.X) != idx || !singleNil(x.Body, idx) {
+						die(fmt.Errorf("%s.OutsList: a clearing loop that is not `for i := 0; i < <bound>; i++ { <slice>[i] = nil }` — not understood", cbs))
+					}
+					if usesRes(x) && !resSet {
+						die(fmt.Errorf("%s.OutsList: the clearing loop over `%s` stands before `%s = %s[:%s]` — not understood", cbs, res, res, pool, cnt))
 					}
 					var bound ast.Expr
 					if be, ok := x.Cond.(*ast.BinaryExpr); ok && be.Op == token.LSS {
@@ -459,4 +500,9 @@ func genSharedFacts() int {
 		die(err)
 	}
 	return 6
+}
+
+func isZeroLit(e ast.Expr) bool {
+	b, ok := e.(*ast.BasicLit)
+	return ok && b.Kind == token.INT && b.Value == "0"
 }
